@@ -11,10 +11,16 @@ import (
 type Rand = rand.Rand
 type Source = rand.Source
 
-func New(src Source) *Rand        { return rand.New(src) }
-func NewSource(seed int64) Source { return rand.NewSource(seed) }
-func Seed(seed int64)             { rand.Seed(seed) }
+//go:norace
+func New(src Source) *Rand { return rand.New(src) }
 
+//go:norace
+func NewSource(seed int64) Source { return rand.NewSource(seed) }
+
+//go:norace
+func Seed(seed int64) { rand.Seed(seed) }
+
+//go:norace
 func Intn(n int) int {
 	if !sched.Active() {
 		return rand.Intn(n)
@@ -26,15 +32,24 @@ func Intn(n int) int {
 	return sched.Choose(m, "rand.Intn")
 }
 
-func Int() int     { return Intn(1 << 30) }
+//go:norace
+func Int() int { return Intn(1 << 30) }
+
+//go:norace
 func Int63() int64 { return int64(Intn(1 << 30)) }
+
+//go:norace
 func Int63n(n int64) int64 {
 	if n > 1<<30 {
 		n = 1 << 30
 	}
 	return int64(Intn(int(n)))
 }
+
+//go:norace
 func Float64() float64 { return 0 }
+
+//go:norace
 func Perm(n int) []int {
 	p := make([]int, n)
 	for i := range p {
@@ -42,4 +57,6 @@ func Perm(n int) []int {
 	}
 	return p
 }
+
+//go:norace
 func Shuffle(n int, swap func(i, j int)) {}
